@@ -313,6 +313,27 @@ fn blp_raw3() -> Vec<u8> {
     encode_blp(&blp).expect("encode_blp")
 }
 
+/// `<1|3|5>:<w>x<h>[:mips]` — a BLP2 DXT texture of any size the encoder accepts (sizes that are
+/// not multiples of 4 / powers of two are what `blp validate` has findings about)
+fn blp_dxt(spec: &str) -> Result<Vec<u8>, String> {
+    use image::{DynamicImage, RgbaImage};
+    use wow_blp::convert::{Blp2Format, BlpTarget, DxtAlgorithm, FilterType, image_to_blp};
+    use wow_blp::encode::encode_blp;
+    let mut it = spec.split(':');
+    let kind = it.next().unwrap_or("1");
+    let (w, h) = it.next().and_then(|d| d.split_once('x')).and_then(|(w, h)| Some((w.parse::<u32>().ok()?, h.parse::<u32>().ok()?))).ok_or_else(|| format!("bad dxt spec {spec}"))?;
+    let mips = it.next() == Some("mips");
+    let img = DynamicImage::ImageRgba8(RgbaImage::from_fn(w, h, |x, y| image::Rgba([(x * 37) as u8, (y * 59) as u8, (x ^ y) as u8, 255])));
+    let a = DxtAlgorithm::RangeFit;
+    let f = match kind {
+        "3" => Blp2Format::Dxt3 { has_alpha: true, compress_algorithm: a },
+        "5" => Blp2Format::Dxt5 { has_alpha: true, compress_algorithm: a },
+        _ => Blp2Format::Dxt1 { has_alpha: false, compress_algorithm: a },
+    };
+    let blp = guard("image_to_blp", || image_to_blp(img, mips, BlpTarget::Blp2(f), FilterType::Nearest)).map_err(|p| format!("image_to_blp panicked: {}", p.message))?.map_err(|e| format!("image_to_blp: {e}"))?;
+    encode_blp(&blp).map_err(|e| format!("encode_blp: {e}"))
+}
+
 /// small library-built archives used as valid MPQ inputs of part 2
 pub fn mpq_spec(id: &str) -> Option<ArchiveSpec> {
     let (version, listfile, compress_tables) = match id {
@@ -382,6 +403,8 @@ fn build_uncached(id: &str) -> Result<Vec<u8>, String> {
         "blp" => {
             if rest == "raw3" {
                 Ok(blp_raw3())
+            } else if let Some(spec) = rest.strip_prefix("dxt") {
+                blp_dxt(spec)
             } else {
                 std::fs::read(format!("/repo/file-formats/graphics/wow-blp/test-data/{rest}")).map_err(|e| format!("{rest}: {e}"))
             }
